@@ -243,8 +243,8 @@ func (x *Exec) builtin(name string, call *ast.CallExpr, env *Env) []Term {
 		s := x.evalAs(call.Args[0], env, info.TypeOf(call))
 		st := info.TypeOf(call)
 		et := st.Underlying().(*types.Slice).Elem()
-		if s.Sort != x.W.SortOf(st) {
-			s = x.zero(st)
+		if !x.W.IsSeq(s.Sort) {
+			unsupported("append to a value that is not modelled as a sequence (%s)", s.Sort)
 		}
 		if call.Ellipsis.IsValid() {
 			b := x.eval(call.Args[1], env)
